@@ -5,6 +5,8 @@
 //!   c13_otlp : the REAL `emit_otlp::Otlp` per (signal, encoding) posting to a local capturing collector; the
 //!              protobuf body is decoded with the repo's generated prost types, the JSON body by a strict
 //!              reading of the proto3 JSON mapping; both are canonicalised and must denote the same record.
+//!   c13_term : the REAL terminal writer (`emit_term`, through the `verif::write_event_no_color` hook, zone pinned
+//!              to UTC); the printed bytes are the observable.
 //! Case formats: lean/EmitModel/Driver/C13.lean.
 
 mod case;
@@ -26,6 +28,11 @@ pub fn streams() -> Vec<Stream> {
     vec![
         Stream { name: "c13_file", gen: gen::gen_file, run: run_file },
         Stream { name: "c13_otlp", gen: gen::gen_otlp, run: run_otlp },
+        // the reproducers of the KNOWN FINDINGS of the OTLP encoders (corpus only, nothing generated): kept in a
+        // stream of their own because `check` reports at most five failure groups per stream — in the main
+        // stream they would use up the slots a new violation needs
+        Stream { name: "c13_otlp_kf", gen: |_, _, _| Vec::new(), run: run_otlp },
+        Stream { name: "c13_term", gen: gen::gen_term, run: run_term },
         // authoring aid, not a checked stream: re-prints a hand-written case line in canonical form
         Stream { name: "c13_mk", gen: |_, _, _| Vec::new(), run: run_mk },
     ]
@@ -220,7 +227,14 @@ fn run_otlp(line: &str) -> String {
                 Err(e) => return fail(&pc.text, format!("json-schema:{}", e)),
             };
             if jc.text != pc.text {
-                return fail(&pc.text, format!("json-denotes-another-record:{}", jc.text));
+                // name the first difference first (so that one defect gives one failure group), then the record
+                let (pt, jt): (Vec<&str>, Vec<&str>) = (pc.text.split(' ').collect(), jc.text.split(' ').collect());
+                let i = pt.iter().zip(jt.iter()).position(|(a, b)| a != b).unwrap_or(pt.len().min(jt.len()));
+                let tok = |t: &[&str]| t.get(i).map(|x| x.trim_matches(|c| c == '(' || c == ')').to_string()).unwrap_or_default();
+                return fail(
+                    &pc.text,
+                    format!("json-denotes-another-record:protobuf={},json={}:{}", tok(&pt), tok(&jt), jc.text),
+                );
             }
             // the property on the decoded record alone
             let mut keys = pc.attr_keys.clone();
@@ -253,6 +267,35 @@ fn run_otlp(line: &str) -> String {
                 Sent::Broken(e) => e.clone(),
             };
             fail("inconsistent", format!("protobuf={},json={}", show(&p), show(&j)))
+        }
+    }
+}
+
+// ------------------------------------------------------------------------------------------ c13_term
+
+fn run_term(line: &str) -> String {
+    // the wall-clock part of the output is local time: pin the zone
+    static TZ: std::sync::Once = std::sync::Once::new();
+    TZ.call_once(|| std::env::set_var("TZ", "UTC"));
+    let Some(d) = parse_case(line, "term", 1).and_then(|a| EventD::parse(&a[0])) else {
+        return "bad-case".into();
+    };
+    let r = case::with_event(&d, |evt| hcommon::catch(|| emit_term::verif::write_event_no_color(evt.by_ref())));
+    match r {
+        None => "bad-case".into(),
+        Some(None) => "panic\tFAIL:panic-on-the-emitting-thread".into(),
+        Some(Some(bytes)) => {
+            let out = format!("(out {})", Sexp::bytes(&bytes));
+            // the property on the output alone: the literal text of the template is printed
+            let text = String::from_utf8_lossy(&bytes);
+            for p in &d.tpl {
+                if let case::PartD::Text(t) = p {
+                    if !text.contains(t.as_str()) {
+                        return format!("{}\tFAIL:template-text-missing-from-output", out);
+                    }
+                }
+            }
+            out
         }
     }
 }
